@@ -462,3 +462,144 @@ Proof.
   destruct (St Wt xs [] L') as (v & P & R & N & B).
   unfold flatten_unmangle. rewrite Hv, T. rewrite app_nil_r in P. rewrite P. now rewrite B.
 Qed.
+
+(* ---------- values whose dynamic type is only convertible to the leaf's type ----------
+   (what a string-cast stage hands to flatten: *uint8 for a *Level leaf): since
+   the repair of finding 7 populateStruct converts them, so only their contents matter *)
+Definition conv_ok (tv : tval) (lt : ty) : Prop :=
+  convertible (fst tv) lt = true /\ (assignable (fst tv) lt = true -> can_nil (fst tv) = true).
+
+Lemma conv_exact lt x : wf_ty lt = true -> conv_ok (lt, x) lt.
+Proof. intros W. split; [apply convertible_refl | intros _; apply (wf_ty_nilable lt W)]. Qed.
+
+Lemma leaf_conv {A} tv lt (kN : outcome A) (kS : val -> outcome A) : wf_ty lt = true -> conv_ok tv lt ->
+  (c <- assign_or_convert tv lt ;;
+   match c with
+   | None => Err 2
+   | Some v' => if soft_is_nil v' then kN else kS (snd v')
+   end) =
+  (if is_vnil (snd tv) then kN else kS (snd tv)).
+Proof.
+  intros W [C As']. destruct tv as [t x]. simpl in *. unfold assign_or_convert. cbn [fst snd].
+  destruct (wf_ty_nilable lt W) as (Nl & Zl & _).
+  destruct (assignable t lt) eqn:As.
+  - cbn [obind]. unfold soft_is_nil. cbn [fst snd]. rewrite (As' eq_refl). reflexivity.
+  - rewrite C. unfold convert. rewrite C. cbn [negb].
+    destruct lt; simpl in W; try discriminate; destruct t; cbn [obind]; unfold soft_is_nil; cbn [fst snd can_nil andb]; reflexivity.
+Qed.
+
+Lemma Forall2_length {A B} (R : A -> B -> Prop) l1 l2 : Forall2 R l1 l2 -> length l1 = length l2.
+Proof. induction 1; simpl; auto. Qed.
+
+Definition exact_of (ltys : list ty) (tvs : list tval) : list tval := combine ltys (map snd tvs).
+
+Lemma pop_ty_leaf_form t tv rest : wf_ty t = true -> under_is_struct t = false ->
+  pop_ty t t (tv :: rest) =
+  (a <- assign_or_convert tv t ;;
+   match a with
+   | None => Err 2
+   | Some v' => if soft_is_nil v' then Ok (zero t, rest, false) else Ok (snd v', rest, true)
+   end).
+Proof.
+  intros W U. destruct t as [| |e| | | | | | |]; simpl in W; try discriminate; try reflexivity.
+  destruct e; simpl in W, U; try discriminate; reflexivity.
+Qed.
+
+Definition conv_ty (t : ty) : Prop :=
+  forall tvs rest, Forall2 conv_ok tvs (leaves_ty t) ->
+    pop_ty t t (tvs ++ rest) = pop_ty t t (exact_of (leaves_ty t) tvs ++ rest).
+Definition conv_fields (fs : fields) : Prop :=
+  forall tvs rest, Forall2 conv_ok tvs (leaves_fields fs) ->
+    pop_fields fs (tvs ++ rest) = pop_fields fs (exact_of (leaves_fields fs) tvs ++ rest).
+
+Lemma conv_leaf t : wf_ty t = true -> under_is_struct t = false -> leaves_ty t = [t] -> conv_ty t.
+Proof.
+  intros W U Lv tvs rest F. rewrite Lv in *. inversion F as [|tv lt r1 r2 C Fr]; subst. inversion Fr; subst.
+  unfold exact_of. cbn [map combine app].
+  rewrite !pop_ty_leaf_form by assumption.
+  rewrite (leaf_conv tv t _ (fun x => Ok (x, rest, true)) W C).
+  rewrite (leaf_conv (t, snd tv) t _ (fun x => Ok (x, rest, true)) W (conv_exact t (snd tv) W)). reflexivity.
+Qed.
+
+Lemma exact_of_app l1 l2 t1 t2 : length t1 = length l1 ->
+  exact_of (l1 ++ l2) (t1 ++ t2) = exact_of l1 t1 ++ exact_of l2 t2.
+Proof. intros L. unfold exact_of. rewrite map_app. apply combine_app. now rewrite map_length. Qed.
+
+Lemma pop_ty_exact t tvs rest : wf_ty t = true -> length tvs = length (leaves_ty t) ->
+  pop_ty t t (exact_of (leaves_ty t) tvs ++ rest) = Ok (build_ty t (map snd tvs), rest, any_set (map snd tvs)).
+Proof.
+  intros W L. destruct (proj1 pop_readback t) as [St _].
+  assert (Lx : length (map snd tvs) = length (leaves_ty t)) by (now rewrite map_length).
+  destruct (St W (map snd tvs) rest Lx) as (v & P & _ & _ & B). unfold exact_of. rewrite B in P. exact P.
+Qed.
+
+Lemma pop_conv :
+  (forall t, (wf_ty t = true -> conv_ty t) /\
+             (forall fs nm, t = TStruct fs nm -> wf_fields fs = true -> conv_fields fs)) /\
+  (forall fs, wf_fields fs = true -> conv_fields fs).
+Proof.
+  apply ty_fields_ind.
+  - intros k nm. split; [intros W; discriminate | intros; discriminate].
+  - intros id pr. split; [intros W; discriminate | intros; discriminate].
+  - intros e [_ IHs]. split; [| intros; discriminate].
+    intros W. destruct (wf_leaf_or_struct (TPtr e) W) as [(U & Lv & _) | (fs & nm & Eq & Wf)].
+    + now apply conv_leaf.
+    + inversion Eq; subst e. clear Eq. specialize (IHs fs nm eq_refl Wf).
+      intros tvs rest F. simpl leaves_ty in *. rewrite !pop_ty_struct. now rewrite (IHs tvs rest F).
+  - intros e IH nm. split; [| intros; discriminate]. intros W. apply conv_leaf; auto.
+  - intros n e IH. split; [intros W; discriminate | intros; discriminate].
+  - intros k IHk v IHv nm. split; [| intros; discriminate]. intros W. apply conv_leaf; auto.
+  - intros fs IH nm. split; [intros W; discriminate|].
+    intros fs' nm' Eq W. inversion Eq; subst. now apply IH.
+  - split; [| intros; discriminate]. intros W. apply conv_leaf; auto.
+  - split; [intros W; discriminate | intros; discriminate].
+  - split; [intros W; discriminate | intros; discriminate].
+  - intros _ tvs rest F. inversion F. reflexivity.
+  - intros n tg an t [IHt _] r IHr W tvs rest F. simpl in W.
+    apply andb_true_iff in W as [W Wr]. apply andb_true_iff in W as [W Wan]. apply andb_true_iff in W as [Wex Wt].
+    simpl leaves_fields in *. apply Forall2_app_inv_r in F as (t1 & t2 & F1 & F2 & ->).
+    pose proof (Forall2_length _ _ _ F1) as L1.
+    rewrite exact_of_app by exact L1. rewrite <- !app_assoc.
+    rewrite !pop_fields_cons. rewrite Wex. cbn [negb].
+    destruct (wf_leaf_or_struct t Wt) as [(U & Lv & _) | (fs & nm & Eq & Wf)].
+    + rewrite U. rewrite Lv in F1. inversion F1 as [|tv lt r1 r2 C Fr]; subst. inversion Fr; subst.
+      unfold exact_of at 1. rewrite Lv. cbn [map combine app].
+      rewrite (leaf_conv tv t _ (fun x => Ok (x, t2 ++ rest, true)) Wt C).
+      rewrite (leaf_conv (t, snd tv) t _ (fun x => Ok (x, exact_of (leaves_fields r) t2 ++ rest, true)) Wt (conv_exact t (snd tv) Wt)).
+      cbn [snd]. destruct (is_vnil (snd tv)); cbn [obind]; rewrite (IHr Wr t2 rest F2); reflexivity.
+    + subst t. assert (U : under_is_struct (TPtr (TStruct fs nm)) = true) by reflexivity. rewrite U.
+      rewrite (IHt Wt t1 (t2 ++ rest) F1).
+      rewrite !pop_ty_exact by assumption. cbn [obind]. rewrite (IHr Wr t2 rest F2). reflexivity.
+Qed.
+
+Lemma flatten_unmangle_build_conv : forall tag te f outs (fvs : list fvt),
+  wf_sf f = true -> flatten_mangle tag 0 te f = Ok outs ->
+  Forall2 conv_ok (map snd fvs) (map sf_ty outs) ->
+  flatten_unmangle (Some f) fvs = Ok (sf_ty f, build_ty (sf_ty f) (map (fun fv => snd (snd fv)) fvs)).
+Proof.
+  intros tag te f outs fvs W H F.
+  destruct (wf_sf_parts f W) as (Wn & Wt & Wa).
+  assert (T : map sf_ty outs = leaves_ty (sf_ty f)).
+  { pose proof H as H'. rewrite flatten_mangle_wf in H' by exact Wt. dob H' nt Hnt.
+    destruct (under_is_struct (sf_ty f)) eqn:U.
+    - eapply (proj1 (fl_types tag te)); [exact Wt | left; reflexivity | exact H'].
+    - inversion H'; subst. simpl.
+      destruct (wf_leaf_or_struct (sf_ty f) Wt) as [(_ & Lv & _) | (fs & nm & E & _)]; [now rewrite Lv|].
+      rewrite E in U. discriminate. }
+  rewrite T in F.
+  destruct (proj1 pop_conv (sf_ty f)) as [Cv _].
+  pose proof (Cv Wt (map snd fvs) [] F) as P. rewrite !app_nil_r in P.
+  set (xs := map snd (map snd fvs)).
+  assert (Lx : length xs = length outs).
+  { unfold xs. rewrite !map_length. apply (Forall2_length _ _ _) in F. rewrite map_length in F. rewrite F, <- T, map_length. reflexivity. }
+  pose proof (flatten_unmangle_build tag te f outs (combine outs (exact_of (leaves_ty (sf_ty f)) (map snd fvs))) xs W H Lx) as B.
+  assert (Ms : map snd (combine outs (exact_of (leaves_ty (sf_ty f)) (map snd fvs))) = combine (map sf_ty outs) xs).
+  { rewrite T. unfold exact_of. fold xs.
+    assert (length outs = length (combine (leaves_ty (sf_ty f)) xs)).
+    { rewrite combine_length, <- T, map_length, Lx. lia. }
+    clear - H0. revert H0. generalize (combine (leaves_ty (sf_ty f)) xs). intros l.
+    revert l; induction outs as [|o r IH]; intros [|y l] Hl; simpl in Hl; try discriminate; [reflexivity|].
+    simpl. f_equal. apply IH. lia. }
+  specialize (B Ms). unfold flatten_unmangle in *. rewrite P. rewrite Ms in B. rewrite T in B.
+  unfold exact_of. fold xs. rewrite B. unfold xs. rewrite map_map. reflexivity.
+Qed.
